@@ -43,8 +43,9 @@ pub const INJECTORS: &[Inj] = &[
     Inj {
         name: "path-bad-escape",
         stage: Stage::Path,
-        apply: |b, _| {
-            b.ov.path_suffix_raw = b"/%zz".to_vec();
+        apply: |b, r| {
+            // (incl. escapes that a sign- or white-space-tolerant integer parser would take for hex digits)
+            b.ov.path_suffix_raw = r.pick(&[&b"/%zz"[..], b"/%zz", b"/a%+5b", b"/%-1", b"/%G0", b"/% 1", b"/x%0xy"]).to_vec();
             true
         },
     },
@@ -79,18 +80,18 @@ pub const INJECTORS: &[Inj] = &[
         name: "query-bad-escape",
         stage: Stage::Query,
         apply: |b, r| {
-            b.ov.query_suffix_raw = r.pick(&[&b"bad=%zz"[..], b"%G0=1", b"x=%", b"y=%4", b"%=1"]).to_vec();
+            b.ov.query_suffix_raw = r.pick(&[&b"bad=%zz"[..], b"%G0=1", b"x=%", b"y=%4", b"%=1", b"x=%+5", b"%+f=1", b"y=%-1", b"z=%0x"]).to_vec();
             true
         },
     },
     Inj {
         name: "body-bad-escape",
         stage: Stage::Query,
-        apply: |b, _| {
+        apply: |b, r| {
             if !b.cfg.fold {
                 return false;
             }
-            b.ov.body_override = Some(b"a=1&b=%zz".to_vec());
+            b.ov.body_override = Some(r.pick(&[&b"a=1&b=%zz"[..], b"a=1&b=%zz", b"x=%+f", b"%+5=1&a=2", b"a=%-1"]).to_vec());
             b.ov.content_type_override = Some(FORM.to_vec());
             true
         },
